@@ -90,7 +90,6 @@ package expr
 // types go through the UserType interface (abstract: identifier and attribute as ghost state).
 //@ func (*Object).Set
 //@   params o n att
-//@   requires o != nil
 //@   ensures grows: len(load(o)) >= old(len(load(o))) && len(load(o)) <= old(len(load(o))) + 1
 //@   ensures array: load(o).arr == old(load(o).arr) || fresh(load(o))
 //@   ensures kept: forall i int :: 0 <= i && i < old(len(load(o))) ==> load(o)[i] == old(load(o)[i])
@@ -443,9 +442,8 @@ package expr
 //@ func (*MappedAttributeExpr).Map
 //@   params ma elemName attName
 //@   property C02
-//@   requires ma != nil && ma.nameMap != nil && ma.reverseMap != nil && ma.nameMap != ma.reverseMap
-//@   ensures* both.tables: inMap(ma.nameMap, attName) && ma.nameMap[attName] == elemName && inMap(ma.reverseMap, elemName) && ma.reverseMap[elemName] == attName
-//@   ensures* others.kept: (forall k String :: k != attName ==> inMap(ma.nameMap, k) == old(inMap(ma.nameMap, k)) && ma.nameMap[k] == old(ma.nameMap[k])) && (forall e String :: e != elemName ==> inMap(ma.reverseMap, e) == old(inMap(ma.reverseMap, e)) && ma.reverseMap[e] == old(ma.reverseMap[e]))
+//@   ensures* both.tables: ma != nil && ma.nameMap != nil && ma.reverseMap != nil && ma.nameMap != ma.reverseMap ==> inMap(ma.nameMap, attName) && ma.nameMap[attName] == elemName && inMap(ma.reverseMap, elemName) && ma.reverseMap[elemName] == attName
+//@   ensures* others.kept: ma != nil && ma.nameMap != nil && ma.reverseMap != nil && ma.nameMap != ma.reverseMap ==> (forall k String :: k != attName ==> inMap(ma.nameMap, k) == old(inMap(ma.nameMap, k)) && ma.nameMap[k] == old(ma.nameMap[k])) && (forall e String :: e != elemName ==> inMap(ma.reverseMap, e) == old(inMap(ma.reverseMap, e)) && ma.reverseMap[e] == old(ma.reverseMap[e]))
 //@   modifies mapOf(ma.nameMap), mapOf(ma.reverseMap)
 //@ lemma c02_wire_name_round_trip property C02: forall nameIn Bool, revIn Bool, k String, e String, back String :: (nameIn ==> revIn && back == k) ==> (nameIn ==> ite(revIn, back, e) == k)
 //@ func AsObject
@@ -469,7 +467,6 @@ package expr
 //@   params o n
 //@   property C02
 //@   locals index:int i:int nat:*expr.NamedAttributeExpr
-//@   requires o != nil
 //@   let before = old(load(o))
 //@   let after = load(o)
 //@   ensures* absent.afterwards: old(distinctNames(load(o))) ==> forall i int :: 0 <= i && i < len(after) ==> after[i].Name != n
@@ -695,3 +692,27 @@ package expr
 //@   callspec (*AttributeExpr).Merge params a o
 //@       requires* merges.a.copy: sinceEntry(o)
 //@       modifies all
+
+// ---- gRPC request metadata keeps the payload's required flag (C10) -------------------------------
+// "request message = payload minus metadata attributes; validation": an attribute the design moves into the
+// request metadata is required there exactly when the payload requires it -- the generated server decoder emits
+// its missing-field check from this flag. Stated per iteration of the loop over the metadata attributes: when
+// the payload requires the attribute (IsRequired, abstracted as a function of attribute and name), the name has
+// been handed to AddRequired of the metadata's validation by the end of the iteration (ghost record).
+//@ ghost spec var mdRequired (Array Int (Array String Bool))
+//@ smt (declare-fun isReqSpec (Int String) Bool)
+//@ func (*GRPCEndpointExpr).Finalize
+//@   params e
+//@   property C10
+//@   opt loopframes none
+//@   unknown_calls_preserve GRPCEndpointExpr.MethodExpr, GRPCEndpointExpr.Metadata, MethodExpr.Payload, MappedAttributeExpr.AttributeExpr, NamedAttributeExpr.Name, elems(*NamedAttributeExpr)
+//@   callspec (*AttributeExpr).IsRequired params a n
+//@       ensures result == isReqSpec(a, n)
+//@       modifies nothing
+//@   callspec (*ValidationExpr).AddRequired params v n
+//@       ensures len(n) == 1 ==> mdRequired == store(old(mdRequired), v, store(select(old(mdRequired), v), n[0], true))
+//@       ensures len(n) != 1 ==> mdRequired == old(mdRequired)
+//@       modifies mdRequired
+//@   let name = prev(4, ranged(4)[rangeidx(4) + 1].Name)
+//@   let ep = local(e)
+//@   loop 4 step* required.in.metadata: isReqSpec(prev(4, ep.MethodExpr.Payload), name) ==> select(select(mdRequired, ep.Metadata.AttributeExpr.Validation), name)
